@@ -96,13 +96,15 @@ Definition early_schedule : list (Z * event) :=
     (2, ev 1 2 8 8 1000 1000 1); (2, ev 2 0 8 8 0 0 1); (2, ev 3 3 16 8 2000 0 1);                   (* detaches A and B *)
     (2, ev 3 3 24 8 0 1000 0); (2, ev 3 3 24 8 1000 2000 1) ].                                       (* submits both *)
 Theorem C07_notify_not_early_refuted :
-  exists s, reach s /\ early s = true /\ outst s = 1 /\ fcnt s 1 = 1 /\ fv (word s) <> 0.
+  exists s, reach s /\ early s = true /\ outst s = 1 /\ fcnt s 1 = 1 /\ (fv (word s) =? 0) = false.
 Proof.
-  destruct (grun init_state early_schedule) as [s|] eqn:E; [|vm_compute in E; discriminate E].
-  exists s. split.
-  - apply (grun_reach early_schedule init_state s); [apply reach_init; reflexivity| |exact E].
-    repeat constructor.
-  - vm_compute in E. injection E as <-. vm_compute. repeat split. discriminate.
+  assert (H : match grun init_state early_schedule with
+              | Some s => early s = true /\ outst s = 1 /\ fcnt s 1 = 1 /\ (fv (word s) =? 0) = false
+              | None => False end) by (vm_compute; repeat split).
+  destruct (grun init_state early_schedule) as [s|] eqn:E; [|destruct H].
+  exists s. split; [|exact H].
+  apply (grun_reach early_schedule init_state s); [apply reach_init; reflexivity| |exact E].
+  repeat constructor.
 Qed.
 Print Assumptions C07_notify_not_early_refuted.
 
@@ -136,7 +138,8 @@ Theorem C07_sites_match_source :
   canon model_sites_notify = canon group_notify_sites /\ canon model_sites_wake = canon group_wake_sites /\
   group_wait_loop_order = Relaxed /\ group_notify_loop_order = Release.
 Proof.
-  repeat split; [apply sites_enter|apply sites_leave|apply sites_wait|apply sites_wait_slow|apply sites_notify|apply sites_wake].
+  split; [apply sites_enter|]. split; [apply sites_leave|]. split; [apply sites_wait|]. split; [apply sites_wait_slow|].
+  split; [apply sites_notify|]. split; [apply sites_wake|]. split; reflexivity.
 Qed.
 Print Assumptions C07_sites_match_source.
 Theorem C07_model_uses_thread_automaton : forall s t e s',
